@@ -485,7 +485,9 @@ func (g *Gen) cond(sc scope) string {
 	return c
 }
 
-var textBits = []string{"a", "hello", " ", "  ", "\n", "\n\n", " \t", "x ", " y", "<p>", "</p>", "é", "日本", ", ", ".", "line\n", "\n  indented", "0", "{", "}", "%"}
+var noSpaceText = "https://example.org/assets/" + strings.Repeat("0123456789abcdef", 6) + ".min.js"
+
+var textBits = []string{noSpaceText, "a", "hello", " ", "  ", "\n", "\n\n", " \t", "x ", " y", "<p>", "</p>", "é", "日本", ", ", ".", "line\n", "\n  indented", "0", "{", "}", "%"}
 
 func (g *Gen) text() *TNode {
 	var sb strings.Builder
@@ -675,6 +677,12 @@ func (g *Gen) node(sc *scope, depth int) *TNode {
 		if g.r.Chance(0.3) {
 			g.use("tag:expand") // custom tag that uses Context.ExpandTagArg
 			return g.trim(&TNode{K: "tag", S: "expand " + pick(g.r, []string{"a", "x-", ""}) + "{{ " + g.scalarExpr(*sc) + " }}" + pick(g.r, []string{"", "-b", " c"})})
+		}
+		if g.r.Chance(0.25) {
+			g.use("tag:bset") // custom tag that writes through Context.Bindings()
+			nm := pick(g.r, []string{"u", "v", "w"})
+			sc.anys = append(sc.anys, "bset_"+nm)
+			return &TNode{K: "block", S: "if true", C: []*TNode{{K: "obj", S: "bset_" + nm}, {K: "tag", S: "bset " + nm}}}
 		}
 		g.use("tag:echo")
 		return g.trim(&TNode{K: "tag", S: "echo " + g.scalarExpr(*sc)})
